@@ -67,6 +67,17 @@ func c03Funs(thorough bool) []c03Fun {
 			"mkg = () -> {\n  k = 7\n  yield () -> k\n  k = 8\n  yield () -> k\n}",
 			"firstd = () -> for c <- mkg() return c",
 			"f = (a) -> {\n  g = firstd()\n  before = g()\n  s = 0\n  for x, y <- fromto(0, a), elems(\"abc\") s = s + x\n  for x <- map(dbl, () -> fromto(0, a)) s = s + x\n  [before, g(), s]\n}"}, []string{"3"}},
+		{"closure-from-abandoned-generator-yielding-through-a-helper", []string{
+			"each = (c) -> {\n  yield c\n  yield c\n}",
+			"geh = () -> {\n  lo = 1\n  hi = 2\n  secret = 42\n  c = () -> secret + lo + hi\n  each(c)\n}",
+			"firsth = () -> for x <- geh() return x",
+			"f = (a) -> {\n  g = firsth()\n  before = g()\n  s = 0\n  for i <- fromto(100, 100 + a) s = s + i\n  for x, y <- fromto(0, a), elems(\"abc\") s = s + x\n  [before, g(), s]\n}"}, []string{"3"}},
+		{"closure-from-abandoned-generator-two-helpers-deep", []string{
+			"each = (c) -> {\n  yield c\n  yield c\n}",
+			"via = (c) -> {\n  pad = 5\n  each(c)\n}",
+			"gev = () -> {\n  secret = 42\n  c = () -> secret\n  via(c)\n}",
+			"firstv = () -> for x <- gev() return x",
+			"f = (a) -> {\n  g = firstv()\n  before = g()\n  s = 0\n  for i <- fromto(100, 100 + a) for j <- fromto(0, 2) s = s + i + j\n  [before, g(), s]\n}"}, []string{"3"}},
 		{"zip-of-composed-generators", []string{"f = (a) -> {\n  s = 0\n  for x, y <- evens(a), evens(a + 2) s = s * 100 + x * 10 + y\n  s\n}"}, []string{"6"}},
 		{"closure-built-before-update-after-deep-call", []string{"f = (a) -> {\n  bias = 0\n  g = (v) -> v * a + bias\n  bias = deeplb(50)\n  h = g\n  h(2)\n}"}, []string{"3"}},
 		{"errors-inside", []string{"f = (a) -> {\n  r = 0\n  for i <- fromto(0, 3) r = r + a / (i + 1)\n  r\n}"}, []string{"12"}},
